@@ -18,6 +18,7 @@ def run(rep):
     rep.guard(l4, rep, w)
     rep.guard(l5, rep, w)
     rep.guard(l6, rep, w)
+    rep.guard(l10, rep, w)
     rep.guard(l7, rep, w)
     rep.guard(l8, rep, w)
     rep.guard(l9, rep, w)
@@ -315,6 +316,75 @@ def l3(rep, w):
             r.check(has_nl or guarded, '%s / loop over advance() looks for newlines' % f.path.replace(SCN, 'Scanner::'),
                     'Scanner::%s consumes characters in a loop that neither tests for "\\n" nor is restricted to a character class: a newline swallowed there is not counted, and every '
                     'later token, compile error and stack-trace line of the file is too small' % f.path.replace(SCN, ''), f.loc(f.blocks[a]['t'].get('sp')))
+    # ... and no single advance() swallows a character nobody has looked at: on every path to an advance() there is a look-ahead
+    # (peek / peek_next, directly or in a helper such as skip_whitespace) since the previous advance(), or the character it returns is
+    # itself compared with "\n". (`\` and `$` inside a string literal are followed by a second advance() whose result was only compared
+    # with the expected characters: a line break there went uncounted until fix c0b4111.)
+    ADV = SCN + 'advance'
+    looks = {SCN + 'peek', SCN + 'peek_next'}
+    cg = w.callgraph()
+    changed = True
+    while changed:
+        changed = False
+        for g in c.fns.values():
+            if g.file.endswith('scanner.rs') and g.path not in looks and g.path != ADV and (cg.get(g.path, set()) & looks):
+                looks.add(g.path)
+                changed = True
+    na = 0
+    for f in sorted(c.fns.values(), key=lambda x: x.path):
+        if not f.file.endswith('scanner.rs') or f.path == ADV:
+            continue
+        advs = [bi for bi, t in f.calls() if callee_name(t) == ADV]
+        if not advs:
+            continue
+        forg = origins(f)
+        look_blocks = {bi for bi, t in f.calls() if callee_name(t) in looks}
+        tested = set()
+        for bi, t in f.calls():
+            name = callee_name(t) or ''
+            if (name.endswith('::eq') or name.endswith('::ne')) and any('"\\n"' in f.operand_strings(forg, x) for x in t['args']):
+                for x in t['args']:
+                    pl = op_place(x)
+                    for q in forg.get(pl['l'], ()) if pl else ():
+                        if q[0][0] == 'call' and q[0][2] == ADV:
+                            tested.add(q[0][1])
+        succ = f.succs()
+        at_end_locals = {t['dst']['l'] for bi, t in f.calls() if callee_name(t) == SCN + 'is_at_end' and not t['dst'].get('p')}
+        for a in advs:
+            na += 1
+            if a in tested:
+                r.ok('%s / advance() result compared with the newline' % f.path.replace(SCN, 'Scanner::'), sample=False)
+                continue
+            # can `a` be reached from the entry or from another advance() without passing a look-ahead?
+            starts = [0] + [x for y in advs for x in succ[y]]
+            seen = set()
+            stack = [x for x in starts]
+            blind = False
+            while stack:
+                b = stack.pop()
+                if b in seen:
+                    continue
+                seen.add(b)
+                if b == a:
+                    blind = True
+                    break
+                if b in look_blocks:
+                    continue
+                if b in advs:
+                    continue
+                tt = f.blocks[b]['t']
+                dpl = op_place(tt['d']) if tt['t'] == 'switch' else None
+                if dpl is not None and not dpl.get('p') and dpl['l'] in at_end_locals:
+                    # at the end of the input there is no character left to consume: only the "not at end" edge matters
+                    stack.extend(cb for v, cb in tt['cases'] if v == 0)
+                    continue
+                stack.extend(succ[b])
+            r.check(not blind, '%s / advance() is preceded by a look-ahead' % f.path.replace(SCN, 'Scanner::'),
+                    'Scanner::%s consumes a character that nothing has looked at (no peek since the previous advance, and the returned character is not compared with '
+                    '"\\n"): a line break at that position is not counted, and every later token, compile error and stack-trace line of the file is too small'
+                    % f.path.replace(SCN, ''), f.loc(f.blocks[a]['t'].get('sp')))
+    if na < 10:
+        raise Broken('C17', 'floor', 'only %d advance() calls found in the scanner' % na)
     if n < 3:
         raise Broken('C17', 'floor', 'only %d newline comparisons found in the scanner' % n)
 
@@ -355,59 +425,103 @@ def newline_tests(f):
     return out
 
 
+def _error_ip_stores(g):
+    """[(block, is_clear, stored operand)] for every store to ObjFiber.error_ip in g"""
+    out = []
+    for bi in g.normal_blocks():
+        for s_ in g.blocks[bi]['s']:
+            d = s_.get('d', {})
+            if not (d.get('p') and isinstance(d['p'][-1], dict) and d['p'][-1].get('n') == 'error_ip' and c01.base_type_before_last(g, d) == 'yarel::object::ObjFiber'):
+                continue
+            rr = s_['r']
+            isnone = rr.get('rv') == 'agg' and rr.get('v') == 'None'
+            pl = op_place(rr.get('o', {}) or {})
+            if pl is not None and not pl.get('p'):
+                isnone = isnone or any(s2.get('d', {}).get('l') == pl['l'] and not s2['d'].get('p') and s2['r'].get('rv') == 'agg' and s2['r'].get('v') == 'None'
+                                       for b2 in g.blocks for s2 in b2['s'])
+            out.append((bi, isnone, rr))
+    return out
+
+
 def l4(rep, w):
-    """the throw site recorded for tracebacks (fiber.error_ip) has exactly two writers: `throw` records it, and delivering
-    the exception to a catch block clears it; runtime_error is its only reader"""
-    r = rep.rule('L4', 'the recorded throw site is set only by an explicit throw and cleared when a catch block takes the exception', floor=3)
-    # who may give error_ip a code address: `throw` (the current ip) and unwind_stack (the call site saved in a surviving frame);
-    # every other writer may only clear it
-    setters, clearers = set(), set()
+    """the site reported for an uncaught error (fiber.error_ip): every *raise* -- an explicit throw, an error the interpreter raises
+    itself, a failing native -- records the instruction it happens at before it starts unwinding; re-raising at the end of a finally
+    block keeps the site it has; delivering the exception to a catch block clears it. (Until fix 6ca1d5b only `throw` recorded a
+    site, and the rule said so; an error raised while another exception was passing through a finally block was then reported at the
+    other exception's site -- in another function's code, a host panic.)"""
+    from c16 import operand_fields
+    r = rep.rule('L4', 'every raise records its own site before unwinding, a rethrow keeps the recorded site, a catch block clears it', floor=6)
+    UNW = VM + 'unwind_stack'
+    RETHROW = VM + 'end_finally_impl'
+    w.require_fn(RETHROW, 'C17')
+    stores = {}
     for g in w.yarel.fns.values():
-        for bi in g.normal_blocks():
-            for s_ in g.blocks[bi]['s']:
-                d = s_.get('d', {})
-                if not (d.get('p') and isinstance(d['p'][-1], dict) and d['p'][-1].get('n') == 'error_ip' and c01.base_type_before_last(g, d) == 'yarel::object::ObjFiber'):
+        st = _error_ip_stores(g)
+        if st:
+            stores[g.path] = st
+    # helpers that record a site handed to them as a parameter
+    recorders = {}
+    for p, st in stores.items():
+        g = w.fns[p]
+        org = origins(g)
+        for (bi, isnone, rr) in st:
+            if isnone:
+                continue
+            for a in rr.get('ops', [rr.get('o')] if rr.get('o') else []):
+                pl = op_place(a or {})
+                if pl is None:
                     continue
-                rr = s_['r']
-                isnone = rr.get('rv') == 'agg' and rr.get('v') == 'None'
-                pl = op_place(rr.get('o', {}) or {})
-                if pl is not None and not pl.get('p'):
-                    isnone = isnone or any(s2.get('d', {}).get('l') == pl['l'] and not s2['d'].get('p') and s2['r'].get('rv') == 'agg' and s2['r'].get('v') == 'None'
-                                           for b2 in g.blocks for s2 in b2['s'])
-                (clearers if isnone else setters).add(g.path)
-    r.check(setters == {VM + 'throw_impl', VM + 'unwind_stack'} and (VM + 'unwind_stack') in clearers, 'error_ip is given an address only by throw_impl / unwind_stack; others only clear it (%s)' % sorted(x.rsplit('::', 1)[-1] for x in clearers),
-            'error_ip receives a code address in %s (expected throw_impl and unwind_stack only; clearing writers: %s): errors that are not explicit throws record a site that nothing clears, '
-            'or the clearing store is gone' % (sorted(setters), sorted(clearers)))
-    u = w.require_fn(VM + 'unwind_stack', 'C17')
+                for q in org.get(pl['l'], ()):
+                    if q[0][0] == 'arg' and q[0][1] >= 2 and all(tok.startswith('in ') for tok in q[1:]):
+                        recorders[p] = q[0][1]
+    def records_current_ip(f, org, bi):
+        """the block ends in / contains a store of Vm.ip into error_ip (directly or through a recorder helper)"""
+        for (b2, isnone, rr) in stores.get(f.path, ()):
+            if b2 == bi and not isnone:
+                for a in rr.get('ops', [rr.get('o')] if rr.get('o') else []):
+                    if a and 'ip' in operand_fields(f, org, a):
+                        return True
+        t = f.blocks[bi]['t']
+        if t['t'] == 'call' and callee_name(t) in recorders:
+            k = recorders[callee_name(t)]
+            if len(t['args']) >= k and 'ip' in operand_fields(f, org, t['args'][k - 1]):
+                return True
+        return False
+    callers = sorted(f.path for f in w.yarel.fns.values() if any(callee_name(t) == UNW for _, t in f.calls()))
+    raises = [p for p in callers if p != RETHROW]
+    if len(raises) < 3:
+        raise Broken('C17', 'anchor', 'fewer than three raising callers of unwind_stack (%s)' % raises)
+    for p in raises:
+        f = w.fns[p]
+        org = origins(f)
+        dom = f.dominators()
+        rec = {bi for bi in f.normal_blocks() if records_current_ip(f, org, bi)}
+        for bi, t in f.calls():
+            if callee_name(t) != UNW:
+                continue
+            r.check(any(x in dom.get(bi, ()) and x != bi for x in rec) or bi in rec, '%s records the current instruction as the error site before unwinding' % p.rsplit('::', 1)[-1],
+                    '%s starts unwinding without recording where the error happened: an uncaught error raised here is reported at the end of the '
+                    'enclosing finally block, or at the site of another exception still in flight (which may lie in another function\'s code: '
+                    'runtime_error then indexes the wrong line table and panics)' % p, f.loc(t.get('sp')))
+    ef = w.fns[RETHROW]
+    r.check(RETHROW not in stores, 'end_finally_impl (rethrow) leaves the recorded site alone', 'end_finally_impl writes error_ip: an exception '
+            'that passes through a finally block is reported at the end of that block instead of where it was raised', ef.loc())
+    # nobody else hands error_ip an address
+    setters = {p for p, st in stores.items() if any(not isnone for (_, isnone, _) in st)}
+    extra = setters - set(raises) - set(recorders) - {UNW}
+    r.check(not extra, 'error_ip is given an address only by the raising functions, their recording helper and unwind_stack',
+            'error_ip receives a code address in %s, which is not a raise: the site reported for the next uncaught error is one nothing relates to it' % sorted(extra))
+    u = w.require_fn(UNW, 'C17')
     cleared = False
     guarded = False
-    for bi in u.normal_blocks():
-        for s in u.blocks[bi]['s']:
-            d = s.get('d', {})
-            if d.get('p') and isinstance(d['p'][-1], dict) and d['p'][-1].get('n') == 'error_ip':
-                rr = s['r']
-                pl = op_place(rr.get('o', {}) or {})
-                isnone = rr.get('rv') == 'agg' and rr.get('v') == 'None'
-                if pl is not None:
-                    for b2 in u.blocks:
-                        for s2 in b2['s']:
-                            if s2.get('d', {}).get('l') == pl['l'] and s2['r'].get('rv') == 'agg' and s2['r'].get('v') == 'None':
-                                isnone = True
-                cleared = cleared or isnone
-                # reached only after a handler was found
-                pops = [b for b, t in u.calls() if callee_name(t) == 'yarel::object::ObjFiber::pop_exc_handler']
-                guarded = all(p_ in u.dominators().get(bi, ()) for p_ in pops)
+    for (bi, isnone, rr) in stores.get(UNW, ()):
+        if isnone:
+            cleared = True
+            # reached only after a handler was found
+            pops = [b for b, t in u.calls() if callee_name(t) == 'yarel::object::ObjFiber::pop_exc_handler']
+            guarded = all(p_ in u.dominators().get(bi, ()) for p_ in pops)
     r.check(cleared and guarded, 'unwind_stack clears error_ip when it delivers to a catch block', 'unwind_stack no longer resets the recorded throw site: a later '
             'uncaught error is reported at the line of an earlier, already handled throw', u.loc())
-    t = w.require_fn(VM + 'throw_impl', 'C17')
-    org = origins(t)
-    sets = False
-    for b in t.blocks:
-        for s in b['s']:
-            d = s.get('d', {})
-            if d.get('p') and isinstance(d['p'][-1], dict) and d['p'][-1].get('n') == 'error_ip':
-                sets = True
-    r.check(sets, 'throw_impl records the throw site', 'throw_impl no longer records error_ip', t.loc())
 
 
 INT_BITS = {'u8': 8, 'i8': 8, 'u16': 16, 'i16': 16, 'u32': 32, 'i32': 32, 'u64': 64, 'i64': 64, 'usize': 64, 'isize': 64, 'u128': 128, 'i128': 128}
@@ -480,6 +594,65 @@ def l6(rep, w, prop='C17'):
                 'through the wrong chunk (wrong line, or an out-of-bounds panic in runtime_error)' % p_, f.loc())
     if n < 2:
         raise Broken(prop, 'floor', 'frame-removing functions found: %d' % n)
+
+
+def l10(rep, w, prop='C17'):
+    """the recorded site belongs to one activation (frame), not to one function's code: with recursion the code of the function
+    that is returning is also the code of an outer activation. So the site is kept together with the depth of its frame -- every
+    store of an address is paired with a store of the depth, the reader uses the site only for the frame of that depth, and the
+    return path forgets the site by depth. (Until fix 1a2d6ec the return path tested whether the site lay in the returning
+    function's code: a finally block calling its own function lost the site of the exception in flight.)"""
+    import c08
+    r = rep.rule('L10', 'the recorded throw site is kept, used and forgotten together with the depth of the frame it was recorded in', floor=4)
+    FIB = 'yarel::object::ObjFiber'
+    # the reader: stores the recorded site into a frame's ip
+    readers = []
+    for g in w.yarel.fns.values():
+        rd, wr = c08.field_accesses(w, g, 0)
+        if (FIB, 'error_ip') in rd and any(n == 'ip' for (_, n) in wr) and g.path.startswith('yarel::object::'):
+            readers.append((g, rd))
+    if not readers:
+        raise Broken(prop, 'anchor', 'no ObjFiber method hands the recorded site to a frame (store_error_ip_or)')
+    usize_fields = {fd['n'] for fd in w.yarel.adts[FIB]['variants'][0]['fields'] if w.yarel.tstr(fd['t']) == 'usize'}
+    depth = set()
+    for g, rd in readers:
+        depth |= {n for (o, n) in rd if o == FIB and n in usize_fields}
+    r.check(bool(depth), 'the reader compares a recorded depth with the number of frames',
+            'the recorded site is handed to whichever frame is innermost when the error is reported, with no record of the frame it belongs to', readers[0][0].loc())
+    if not depth:
+        return
+    stores = {}
+    for g in w.yarel.fns.values():
+        st = _error_ip_stores(g)
+        if any(not isnone for (_, isnone, _) in st):
+            stores[g.path] = [bi for (bi, isnone, _) in st if not isnone]
+    for p_, blocks in sorted(stores.items()):
+        g = w.fns[p_]
+        dom = g.dominators()
+        dblocks = set()
+        for bi in g.normal_blocks():
+            for s_ in g.blocks[bi]['s']:
+                d = s_.get('d', {})
+                if d.get('p') and isinstance(d['p'][-1], dict) and d['p'][-1].get('n') in depth:
+                    dblocks.add(bi)
+        for b in blocks:
+            paired = any(x == b or b in dom.get(x, ()) or x in dom.get(b, ()) for x in dblocks)
+            r.check(paired, '%s stores the depth with the site' % p_.rsplit('::', 1)[-1],
+                    '%s gives error_ip a new address without recording the depth of the frame it now belongs to: the stale depth makes the return path forget the site too '
+                    'early or keep it too long' % p_, g.loc())
+    # forgetting on return goes by depth
+    for p_, g in sorted(w.yarel.fns.items()):
+        if not p_.startswith(VM):
+            continue
+        st = _error_ip_stores(g)
+        if not st or any(not isnone for (_, isnone, _) in st):
+            continue
+        if not any(strip_generics(callee_name(t) or '') == 'std::vec::Vec::pop' for _, t in g.calls()):
+            continue
+        rd, _ = c08.field_accesses(w, g, 1)
+        r.check(any((FIB, n) in rd for n in depth), '%s forgets the site by frame depth' % p_.rsplit('::', 1)[-1],
+                '%s decides whether to forget the recorded site without looking at the depth it was recorded at: with recursion a returning inner activation shares its '
+                'code with the outer one that raised' % p_, g.loc())
 
 
 def l7(rep, w):
